@@ -45,6 +45,11 @@ func registryFile(name string) *descriptor.FileDescriptorProto {
 func WellKnown() []*descriptor.FileDescriptorProto {
 	d := registryFile("descriptor.proto")
 	d.Name = proto.String("google/protobuf/descriptor.proto")
+	// (gogo users map descriptor.proto to gogo's own descriptor package)
+	if d.Options == nil {
+		d.Options = &descriptor.FileOptions{}
+	}
+	d.Options.GoPackage = proto.String("github.com/gogo/protobuf/protoc-gen-gogo/descriptor")
 	g := registryFile("gogo.proto")
 	g.Name = proto.String("gogoproto/gogo.proto")
 	g.Dependency = []string{"google/protobuf/descriptor.proto"}
@@ -201,6 +206,9 @@ func BuildFile(file *ir.File) *descriptor.FileDescriptorProto {
 	}
 	if usesDur {
 		fd.Dependency = append(fd.Dependency, "google/protobuf/duration.proto")
+	}
+	if file.ImportsDescriptor {
+		fd.Dependency = append(fd.Dependency, "google/protobuf/descriptor.proto")
 	}
 	if file.Dep != nil && !file.DepUnused {
 		fd.Dependency = append(fd.Dependency, file.Dep.Name)
